@@ -404,19 +404,231 @@ def check_ties_percent(ctx, names, cases, impl_out, reqs):
                 pass
 
 
+
+# ---------------------------------------------------------------------------- slice() / __getitem__ after OFFSET
+def check_slices(ctx, names, cases, impl_out, reqs, n):
+    """`stmt.offset(k).slice(a, b)`, `Query.offset(k)[a:b]`, `[a]`, `[a:]`, `[:b]`: the rows
+    are rows[k:][a:b] of the ordered result (Python list slicing is the oracle)"""
+    import random as _r
+
+    from sqlalchemy import literal, select
+    from sqlalchemy.orm import Session, registry
+
+    for _ in range(n):
+        case = {
+            "slicecase": True,
+            "pre_offset": ctx.rng.choice([None, 0, 1, 2, 3, 5]),
+            "simple": ctx.rng.random() < 0.7,
+            "start": ctx.rng.choice([0, 0, 0, 1, 2, 4]),
+            "len": ctx.rng.choice([None, 0, 1, 2, 3, 6]),
+            "api": ctx.rng.choice(["core.slice", "query.slice", "query[a:b]", "query[a]", "query[a:]", "query[:b]"]),
+            "seed": ctx.rng.randrange(1 << 30),
+        }
+        bad = run_slice_case(case)
+        ctx.case(("slice", tuple(sorted((k, str(v)) for k, v in case.items()))), nontrivial=case["pre_offset"] not in (None, 0))
+        ctx.count("slice-api=" + case["api"])
+        ctx.count("slice-start0-after-offset=%s" % (case["start"] == 0 and bool(case["pre_offset"])))
+        if bad is None:
+            continue
+        if bad[0] == "skip":
+            continue
+        if bad[0] == "ok":
+            _, k, a, stop, nrows, idx = bad
+            names.append("slice-after-offset")
+            cases.append(case)
+            impl_out.append("ok " + (",".join(str(i) for i in idx) or "-"))
+            reqs.append("limit sliceafter %d %d %s %d" % (k, a, "N" if stop is None else str(stop), nrows))
+        else:
+            ctx.violation(bad[0], case, bad[1])
+
+
+def run_slice_case(case):
+    import random as _r
+
+    from sqlalchemy import literal
+    from sqlalchemy import select
+    from sqlalchemy.orm import Session, registry
+
+    rng = _r.Random(case["seed"])
+    eng, t, u = make_db(rng)
+    k = case["pre_offset"]
+    a = case["start"]
+    stop = None if case["len"] is None else a + case["len"]
+    api = case["api"]
+    if api in ("core.slice", "query.slice", "query[a:b]") and stop is None:
+        stop = a + 2
+    if api == "query[:b]":
+        a = 0
+        if stop is None:
+            stop = 3
+    if api == "query[a:]":
+        stop = None
+    if api == "query[a]":
+        stop = a + 1
+
+    def offval(n):
+        if case["simple"]:
+            return n
+        return literal(n) + 0 if n < 2 else literal(n - 1) + 1
+
+    reg = registry()
+
+    class T:
+        pass
+
+    reg.map_imperatively(T, t)
+    try:
+        with Session(eng) as s:
+            full = [r[0] for r in s.execute(select(t.c.id).order_by(t.c.v.desc(), t.c.id))]
+            want = full[(k or 0):][a:stop]
+            try:
+                if api == "core.slice":
+                    stmt = select(t.c.id).order_by(t.c.v.desc(), t.c.id)
+                    if k is not None:
+                        stmt = stmt.offset(offval(k))
+                    got = [r[0] for r in s.execute(stmt.slice(a, stop))]
+                else:
+                    q = s.query(T).order_by(t.c.v.desc(), t.c.id)
+                    if k is not None:
+                        q = q.offset(offval(k))
+                    if api == "query.slice":
+                        got = [o.id for o in q.slice(a, stop)]
+                    elif api == "query[a:b]":
+                        got = [o.id for o in q[a:stop]]
+                    elif api == "query[a:]":
+                        got = [o.id for o in q[a:]]
+                    elif api == "query[:b]":
+                        got = [o.id for o in q[:stop]]
+                    else:
+                        try:
+                            got = [q[a].id]
+                        except IndexError:
+                            got = []
+            except Exception as e:  # noqa: BLE001
+                return ("c18-slice-exception", "%s: %s" % (type(e).__name__, str(e)[:200]))
+            if got != want:
+                return ("c18-slice-after-offset", "%s with prior offset %s, slice [%s:%s] returned ids %s, rows[k:][a:b] is %s" % (api, k, a, stop, got, want))
+            pos = {v: i for i, v in enumerate(full)}
+            return ("ok", k or 0, a, stop, len(full), [pos[x] for x in got])
+    finally:
+        reg.dispose()
+        eng.dispose()
+
+
+def unparen_members(sql):
+    """SQLite does not accept parenthesised compound members: `(X) UNION ALL Y` becomes
+    `SELECT * FROM (X) UNION ALL Y` (same rows)"""
+    s = " ".join(sql.split())
+    out, i, depth, start_member = "", 0, 0, True
+    while i < len(s):
+        ch = s[i]
+        if depth == 0 and start_member and ch == "(":
+            # find the matching parenthesis
+            d, j = 0, i
+            while True:
+                if s[j] == "(":
+                    d += 1
+                elif s[j] == ")":
+                    d -= 1
+                    if d == 0:
+                        break
+                j += 1
+            out += "SELECT * FROM " + s[i : j + 1]
+            i = j + 1
+            start_member = False
+            continue
+        if ch == "(":
+            depth += 1
+        elif ch == ")":
+            depth -= 1
+        out += ch
+        if depth == 0 and out.endswith(" UNION ALL "):
+            start_member = True
+        elif ch != " ":
+            start_member = False if not out.endswith(" UNION ALL ") else start_member
+        i += 1
+    return out
+
+
+# ---------------------------------------------------------------------------- limited SELECT embedded in UNION / INSERT..FROM SELECT
+def check_embedded(ctx, n):
+    """a limited SELECT as member of a UNION ALL or as the source of INSERT .. FROM SELECT,
+    rendered for the emulating configurations (MSSQL without OFFSET/FETCH, Oracle without it)
+    and executed on SQLite"""
+    import random as _r
+
+    import sqlalchemy as sa
+    from sqlalchemy import Column, Integer, MetaData, Table, insert, select, union_all
+
+    for _ in range(n):
+        case = {
+            "embedded": ctx.rng.choice(["union_first", "union_second", "insert_from_select"]),
+            "limit": ctx.rng.choice([None, 1, 2, 3, 5]),
+            "offset": ctx.rng.choice([1, 2, 3]),
+            "simple": ctx.rng.random() < 0.7,
+            "seed": ctx.rng.randrange(1 << 30),
+        }
+        rng = _r.Random(case["seed"])
+        eng, t, u = make_db(rng)
+        base = select(t.c.id).order_by(t.c.v.desc(), t.c.id)
+        lim_case = {"limit": case["limit"], "offset": case["offset"], "fetch": False, "simple": case["simple"]}
+        member = limited(base, lim_case)
+        other = select(t.c.id + 1000)
+        m2 = MetaData()
+        t2 = Table("t2", m2, Column("id", Integer))
+        with eng.connect() as c:
+            m2.create_all(c)
+            full = [r[0] for r in c.execute(base)]
+            want_member = full[case["offset"] :] if case["limit"] is None else full[case["offset"] : case["offset"] + case["limit"]]
+            if case["embedded"] == "union_first":
+                stmt = union_all(member, other)
+                want = want_member + [i + 1000 for i in full]
+            elif case["embedded"] == "union_second":
+                stmt = union_all(other, member)
+                want = [i + 1000 for i in full] + want_member
+            else:
+                stmt = insert(t2).from_select(["id"], member)
+                want = want_member
+            ctx.case(("embedded", tuple(sorted((k, str(v)) for k, v in case.items()))), nontrivial=bool(full))
+            for name, d in dialect_configs():
+                if name not in ("mssql2008", "oracle11"):
+                    continue
+                ctx.count("embedded:%s:%s" % (name, case["embedded"]))
+                try:
+                    sql = str(stmt.compile(dialect=d, compile_kwargs={"literal_binds": True}))
+                    form = "rowNumber" if name == "mssql2008" else "rownum"
+                    run_sql = unparen_members(to_sqlite(sql, form))
+                    if case["embedded"] == "insert_from_select":
+                        c.exec_driver_sql("DELETE FROM t2")
+                        c.exec_driver_sql(run_sql)
+                        got = [r[0] for r in c.exec_driver_sql("SELECT id FROM t2")]
+                    else:
+                        got = [r[0] for r in c.exec_driver_sql(run_sql)]
+                except Exception as e:  # noqa: BLE001
+                    ctx.violation("c18-%s-embedded-exception" % name, case, "%s: %s" % (type(e).__name__, str(e)[:300]))
+                    continue
+                if sorted(got) != sorted(want):
+                    ctx.violation("c18-%s-embedded-%s" % (name, case["embedded"].split("_")[0]), case, "rows %s, expected %s | %s" % (sorted(got), sorted(want), " ".join(sql.split())[:400]))
+        eng.dispose()
+
+
 def run(ctx):
     ctx.rule = (
         "random: 8 ordered query shapes (plain, join, subquery, DISTINCT, GROUP BY, label reference, WHERE, multi-key) over 0-17 random rows x "
         "limit/offset in {none, 0, 1, 2, 3, 5, 9, 20} x limit()/fetch()/slice() x plain integers / SQL expressions, each rendered for 7 dialect "
-        "configurations and executed on SQLite (natively, verbatim, or through the form rewriter); non-trivial = a limit or offset on a non-empty result"
+        "configurations and executed on SQLite (natively, verbatim, or through the form rewriter); plus offset(k) followed by Select.slice / Query.slice / "
+        "Query.__getitem__ (start 0 and >0, integer and SQL-expression offsets) against Python list slicing, and limited SELECTs embedded as UNION ALL "
+        "members / INSERT..FROM SELECT sources for the two emulating configurations; non-trivial = a limit or offset on a non-empty result"
     )
     ctx.trusted.append("the SQL rewriter of harness/props/c18.py (meaning of TOP / OFFSET-FETCH / LIMIT ALL / LIMIT o,l / ROWNUM)")
     ctx.trusted.append("SQLite 3 window functions and LIMIT as the executing backend")
     names, cases, impl_out, reqs = [], [], [], []
-    n = 500 if ctx.tier == "quick" else 6000
+    n = 280 if ctx.tier == "quick" else 6000
     for _ in range(n):
         one(ctx, gen_case(ctx.rng, ctx.tier), names, cases, impl_out, reqs)
     check_ties_percent(ctx, names, cases, impl_out, reqs)
+    check_slices(ctx, names, cases, impl_out, reqs, 150 if ctx.tier == "quick" else 3000)
+    check_embedded(ctx, 50 if ctx.tier == "quick" else 800)
     if ctx.driver_ok():
         model = ctx.driver(reqs)
         for nm in sorted(set(names)):
@@ -433,6 +645,15 @@ def search(ctx, broken):
 
 def replay(ctx, obj):
     case = obj["case"]
+    if case.get("slicecase"):
+        bad = run_slice_case(case)
+        print("replay C18 slice case %s -> %s" % (case, bad))
+        return bad is not None and bad[0] not in ("ok", "skip")
+    if "embedded" in case:
+        sub = type(ctx)(ctx.pid, "quick", ctx.seed, ctx.level)
+        check_embedded(sub, 80)
+        print("replay C18 embedded checks -> %s" % [v["key"] for v in sub.violations][:5])
+        return bool(sub.violations)
     if "render" in case:
         sub = type(ctx)(ctx.pid, "quick", ctx.seed, ctx.level)
         check_ties_percent(sub, [], [], [], [])
